@@ -770,6 +770,11 @@ func (f *Frame) execPanic(in *ssa.Panic, st *State) {
 		goal := TFalse
 		text := "explicit panic is unreachable"
 		top := f.topFrame()
+		if top.block != nil && top.block.Flags["panics-assumed"] && f == top {
+			c.note("assumed", "explicit panic in "+f.label+" assumed unreachable: "+top.block.PanicsAssumed)
+			st.Reach = TFalse
+			return
+		}
 		if top.block != nil && len(top.block.PanicsIf) > 0 {
 			var cs []Term
 			for _, cl := range top.block.PanicsIf {
